@@ -85,6 +85,8 @@ FIXED = [
      "couplings_expanded_alphaem_running((1,1), [.35,.0075]/4pi, 3, 3, 4., 2500., False) -> a_em = NaN (beta0 swapped inside the logarithms)"),
     ("C45", "info/AlphaS_Vals/scheme=MSBAR", "listed alpha_s from other thresholds",
      "info_file.build_alphas used the raw MSbar m(mu_ref) values as thresholds instead of the solved m(m): alpha_s(1.5, nf=3) = 0.34470 in the info file vs 0.34637 used by the evolution"),
+    ("C51", "exponent/sv=exponentiated/qcd=3,qed=0,run=0/wall", "scale variation of the matching used beta0",
+     "exponentiated scheme across a threshold at NNLO: matching elements re-expanded with beta0(nf) although they are a series in a_s^(nf+1): residual to the central operator O(a_s^2) (exponent 2.01 < 3; order=(3,0), xif2=0.25, truncated, 3 GeV (nf 4) -> 20 GeV (nf 5))"),
     ("C41", "v1-archive/theory/matching_order", "loaded with matching order (0, 0)",
      "v1.update_theory forced matching_order=[0,0] for v0.13 archives of any order"),
 ]
